@@ -236,7 +236,12 @@ def d3(cx: Cx, ob: Ob) -> None:
             ob.site(f"{where(m, line)} {m.qualname}", "constructor call")
 
 
-def _single_comp(ob: Ob, m, recs, line, kind=("list", "gen")):
+def _single_comp(ob: Ob, m, recs, line, kind=("list", "gen"), s=None):
+    if s is not None and op(recs) == "new":
+        from ..rules import as_comprehension
+
+        c = as_comprehension(s, recs)
+        recs = c if c is not None else recs
     if op(recs) != "comp" or recs[1] not in kind or len(recs[3]) != 1:
         return None
     tgt, it, ifs = recs[3][0]
@@ -254,7 +259,7 @@ def d4(cx: Cx, ob: Ob) -> None:
     data = ("param", m.params[1].name)
     for s, recs, line in loader_ctor(cx, ob, m):
         ob.site(f"{where(m, line)} {m.qualname}", show(recs)[:80])
-        sc = _single_comp(ob, m, recs, line)
+        sc = _single_comp(ob, m, recs, line, s=s)
         if sc is None:
             ob.undecide("from_prefix_map record construction not a single comprehension")
             continue
@@ -275,7 +280,7 @@ def d4(cx: Cx, ob: Ob) -> None:
     data = ("param", m.params[1].name)
     for s, recs, line in loader_ctor(cx, ob, m):
         ob.site(f"{where(m, line)} {m.qualname}", show(recs)[:80])
-        sc = _single_comp(ob, m, recs, line)
+        sc = _single_comp(ob, m, recs, line, s=s)
         if sc is None:
             ob.undecide("from_priority_prefix_map record construction not a single comprehension")
             continue
@@ -376,7 +381,7 @@ def d4(cx: Cx, ob: Ob) -> None:
     for t, ctx in s.returns():
         line = ctx.path.out[2]
         ob.site(f"{where(fn, line)} {fn.qualname}", show(t)[:80])
-        sc = _single_comp(ob, fn, t, line)
+        sc = _single_comp(ob, fn, t, line, s=s)
         if sc is None:
             ob.undecide("upgrade_prefix_map result is not a single comprehension")
             continue
@@ -386,6 +391,9 @@ def d4(cx: Cx, ob: Ob) -> None:
         prov.scan(t)
         if kw is None:
             ob.undecide("upgrade_prefix_map element is not Record(...)")
+            continue
+        if op(it) == "call" and it[1] == ("ext", "itertools.groupby") and it[2]:
+            _upgrade_by_groupby(cx, ob, fn, s, pm, tgt, it, kw, prov, line)
             continue
         # outer iteration sorted
         if not (op(it) == "call" and op(it[1]) == "builtin" and it[1][1] == "sorted"):
@@ -452,7 +460,7 @@ def d4(cx: Cx, ob: Ob) -> None:
     data = ("param", m.params[1].name)
     for s, recs, line in loader_ctor(cx, ob, m):
         ob.site(f"{where(m, line)} {m.qualname}", show(recs)[:80])
-        sc = _single_comp(ob, m, recs, line)
+        sc = _single_comp(ob, m, recs, line, s=s)
         if sc is None:
             ob.undecide("from_extended_prefix_map record construction not a single comprehension")
             continue
@@ -468,6 +476,63 @@ def d4(cx: Cx, ob: Ob) -> None:
             if op(a) == "call" and op(a[1]) == "attr" and a[1][2] == "model_validate" and a[2] == (tgt,):
                 continue
             ob.violate(m.qualname, where(m, line), f"from_extended_prefix_map builds records with `{show(a)[:60]}`, not Record(**record)", detail="element")
+
+
+def _upgrade_by_groupby(cx: Cx, ob: Ob, fn, s, pm, tgt, it, kw, prov, line) -> None:
+    """upgrade_prefix_map written as groupby over the sorted (uri_prefix, curie_prefix) pairs: sorting whole
+    pairs orders the groups by URI prefix and, inside a group (equal first component), by CURIE prefix."""
+    base = it[2][0]
+    key = dict(it[3]).get("key") or (it[2][1] if len(it[2]) > 1 else None)
+    if _projection(cx, key) != ("idx", 0):
+        ob.undecide(f"upgrade_prefix_map groups by `{show(key)[:40] if key else 'identity'}`")
+        return
+    if not (op(base) == "call" and base[1] == ("builtin", "sorted") and base[2]):
+        ob.violate(fn.qualname, where(fn, line), "upgrade_prefix_map iterates the groups in dictionary order: the result depends on the input's key order", detail="outer-unsorted")
+        return
+    skw = dict(base[3])
+    sproj = _projection(cx, skw.get("key"))
+    if "reverse" in skw and not is_const(skw["reverse"], False):
+        ob.violate(fn.qualname, where(fn, line), f"upgrade_prefix_map sorts the pairs with {show(base)[:60]}: the lexicographically first CURIE prefix must become canonical", detail="inner-sort-key")
+    if sproj == ("idx", 0):
+        ob.violate(fn.qualname, where(fn, line), "upgrade_prefix_map sorts the pairs by URI prefix only: inside a group the CURIE prefixes stay in dictionary order, so the canonical prefix depends on the input's key order", detail="inner-unsorted")
+    elif sproj not in ("id", ("idxs", (0, 1))):
+        ob.undecide(f"upgrade_prefix_map sorts its pairs by `{show(skw.get('key'))[:40]}`")
+        return
+    pairs = base[2][0]
+    if not (op(pairs) == "comp" and pairs[1] in ("gen", "list") and len(pairs[3]) == 1 and op(pairs[2]) == "tuple" and len(pairs[2][1]) == 2):
+        ob.undecide(f"upgrade_prefix_map sorts `{show(pairs)[:50]}`")
+        return
+    ptgt, psrc, pifs = pairs[3][0]
+    if pifs:
+        ob.violate(fn.qualname, where(fn, line), "upgrade_prefix_map filters its input", detail="filter")
+    if psrc != ("call", ("attr", pm, "items"), (), ()):
+        ob.violate(fn.qualname, where(fn, line), "upgrade_prefix_map does not iterate the items of its argument", detail="source")
+    if not (op(ptgt) == "tuple" and len(ptgt[1]) == 2 and pairs[2][1] == (ptgt[1][1], ptgt[1][0])):
+        ob.violate(fn.qualname, where(fn, line), "upgrade_prefix_map does not group CURIE prefixes by URI prefix", detail="group-roles")
+    if not (op(tgt) == "tuple" and len(tgt[1]) == 2):
+        ob.undecide("groupby target of upgrade_prefix_map is not (key, group)")
+        return
+    gk, grp = tgt[1]
+    if kw.get("uri_prefix") != gk:
+        ob.violate(fn.qualname, where(fn, line), "upgrade_prefix_map does not use the group key as uri_prefix", detail="roles")
+    pv = prov.vals(kw.get("prefix")) if kw.get("prefix") is not None else []
+    sv = prov.vals(kw.get("prefix_synonyms")) if kw.get("prefix_synonyms") is not None else []
+    if len(pv) != 1 or len(sv) != 1:
+        ob.undecide("provenance of prefix / prefix_synonyms in upgrade_prefix_map not unique")
+        return
+    head, tail = pv[0], sv[0]
+    if not (op(head) == "item" and is_const(head[2], 0) and op(tail) == "slice" and tail[1] == head[1] and is_const(tail[2], 1) and is_const(tail[3], None)):
+        ob.violate(fn.qualname, where(fn, line), f"prefix / prefix_synonyms are `{show(head)[:40]}` / `{show(tail)[:40]}`: not head and tail of the same sequence (a duplicate prefix is dropped or repeated)", detail="head-tail")
+        return
+    seq = head[1]
+    if op(seq) == "new" and len(seq) > 4:
+        seq = seq[4]
+    ok = False
+    if op(seq) == "comp" and seq[1] in ("list", "gen") and len(seq[3]) == 1 and seq[3][0][1] == grp and not seq[3][0][2]:
+        gt = seq[3][0][0]
+        ok = (op(gt) == "tuple" and len(gt[1]) == 2 and seq[2] == gt[1][1]) or seq[2] == ("item", gt, ("const", 1))
+    if not ok:
+        ob.undecide(f"CURIE prefixes of a group are `{show(seq)[:60]}`")
 
 
 def check_head_tail(ob: Ob, m, line, kw, canon: str, syn: str, seq_expected, what: str):
